@@ -89,6 +89,8 @@ def class_source(classes, pfx):
             args.append("no_data_loss=True")
         if o.get("no_explicit_cast"):
             args.append("no_explicit_cast=True")
+        if o.get("override"):
+            args.append("override=True")
         if o.get("dfs"):
             args.append("data_first_search=True")
         src.append("class %s%d(Schema):" % (pfx, k))
@@ -351,6 +353,43 @@ def res_within(classes, r, n=0):
     if "m" in r:
         return all(res_within(classes, x, n) for _, x in r["m"])
     return True
+
+
+def res_within_inherited(classes, r, n=0, anc=()):
+    """the stricter reading: an instance also sits within the limit of every *enclosing* instance's class
+    (`max_depth = d` on a class bounds the nesting of whatever is parsed below it)"""
+    if r is None or "x" in r:
+        return True
+    if "k" in r:
+        lim = limit_of(classes, r["k"])
+        anc2 = anc + ((lim,) if lim is not None else ())
+        if any(n + 1 > m for m in anc2):
+            return False
+        return all(res_within_inherited(classes, x, n + 1, anc2) for _, x in r["f"])
+    for key in ("l", "tu"):
+        if key in r:
+            return all(res_within_inherited(classes, x, n, anc) for x in r[key])
+    if "m" in r:
+        return all(res_within_inherited(classes, x, n, anc) for _, x in r["m"])
+    return True
+
+
+def spec_classes(classes, root):
+    """the limits the specification reads: under a root with `override=True` the root's options replace those of every
+    class parsed below it (options.py:254-258), so its max_depth is *the* limit"""
+    if classes[root].get("opts", {}).get("override"):
+        md = classes[root]["opts"].get("max_depth")
+        return [dict(c, opts=dict({k: v for k, v in c.get("opts", {}).items() if k != "max_depth"},
+                                  **({"max_depth": md} if md is not None else {}))) for c in classes]
+    return classes
+
+
+def mixed_limits(classes):
+    return len({limit_of(classes, k) for k in range(len(classes))}) > 1
+
+
+def has_override(classes):
+    return any(c.get("opts", {}).get("override") for c in classes)
 
 
 def res_depth(r):
@@ -870,6 +909,8 @@ def gen_random_case(rng, cyc=False):
     else:
         if cyc:
             return None
+    if not cyc and rng.random() < 0.06:
+        classes = [dict(c, opts=dict(c["opts"], override=True)) if k == root else c for k, c in enumerate(classes)]
     entry = rng.choice(["init", "init", "init", "from", "transform"])
     if v is None or "d" not in v or any(not isinstance(k, str) for k, _ in v["d"]):
         entry = rng.choice(["from", "transform"])
@@ -1000,6 +1041,27 @@ def random_steps(rng, classes):
             w, field = tok(GOOD, rng), "zz"
         steps.append({"op": rng.choice(OPS), "cls": kx, "nth": rng.randrange(6), "field": field, "value": w})
     return steps
+
+
+def mixed_limit_case(pos, root_md, inner_md, k, override=False, cyc=False):
+    """a limited root class over a nested recursive class with its own (or no) limit: k levels of the nested class"""
+    ty, wrap = positions(1)[pos]
+    ro = {"max_depth": root_md}
+    if override:
+        ro["override"] = True
+    io_ = {} if inner_md is None else {"max_depth": inner_md}
+    classes = [{"opts": ro, "fields": [["v", "leaf"], ["b", {"data": 1}]]},
+               {"opts": io_, "fields": [["v", "leaf"], ["nx", ty]]}]
+    if cyc:
+        n = len(_containers_between(wrap))
+        v = {"d": [["b", {"d": [["v", {"t": 0}], ["nx", wrap({"ref": n})]]}]]}
+        return {"classes": classes, "root": 0, "entry": "init", "value": v, "cyc": True, "cyc_forced": True,
+                "fam": "cyc/unlimited-below-limited-root"}
+    w = {"d": [["v", {"t": 0}]]}
+    for _ in range(k - 1):
+        w = {"d": [["v", {"t": 0}], ["nx", wrap(w)]]}
+    return {"classes": classes, "root": 0, "entry": "init", "value": {"d": [["v", {"t": 0}], ["b", w]]},
+            "fam": "mixed-limits/" + ("override/" if override else "") + pos}
 
 
 def exp_case(k, pos="optional", md=None):
@@ -1183,6 +1245,9 @@ class C18(Check):
             out += [chain_case(p, 1, md, cyc=True) for p in POS_NAMES if p != "wrapped-scalar" for md in (1, 3)]
             out += [exp_case(k) for k in range(1, 8)]
             out += [exp_case(k, "list-opt-0") for k in (2, 4, 6)]
+            # a limited root over a nested class with its own / no limit (known finding limit-not-inherited), and with override
+            out += [mixed_limit_case(p, rmd, imd, k, ov) for p in ("direct", "optional", "list-0", "dict-key")
+                    for rmd, imd in ((1, None), (2, None), (2, 4), (3, 1)) for k in (1, 2, 4) for ov in (False, True)]
             # second steps: assignment (attribute / item / update / |=) on the instance at every level of a parsed tree
             out += [assign_case(p, k, md, lv, m, OPS[(k + lv + m + i) % 4]) for i, p in enumerate(POS_NAMES)
                     for md, k in ((3, 3), (3, 2), (2, 2), (None, 3)) for lv in range(1, k + 1) for m in (0, 1, 2)]
@@ -1204,6 +1269,9 @@ class C18(Check):
                     for m, e in ((1, "init"), (2, "transform"), (3, "init"))]
             out += [wrapped_cycle_case(p, md, tw) for p in POS_NAMES for md in (1, 3) for tw in (False, True)]
         elif tier == "thorough":
+            out += [mixed_limit_case(p, rmd, imd, k, ov) for p in POS_NAMES for rmd in (1, 2, 3) for imd in (None, 1, 2, 4)
+                    for k in (1, 2, 3, 5) for ov in (False, True)]
+            out += [mixed_limit_case(p, 3, None, 1, cyc=True) for p in ("optional", "list-opt-0")]
             out += [assign_case(p, k, md, lv, m, op, kind, "init", mode) for p in POS_NAMES for md in (1, 2, 3, 4, None)
                     for k in (1, 2, 3, 4) if md is None or k <= md for lv in range(1, k + 1) for m in (0, 1, 2, 3)
                     for op, kind, mode in (("setattr", GOOD, 0), ("setitem", GOOD, 1), ("update", BAD, 0), ("ior", LOSSY, 2))]
@@ -1252,6 +1320,8 @@ class C18(Check):
         v = self.model_line(case)["value"]          # normalised; for a cyclic input the unfolding the model sees
         if case.get("entry") == "from" and v is not None and "l" in v:
             return False        # K.__from__(sequence) skips transform_dataclass: not modelled
+        if has_override(case["classes"]):
+            return False        # Options(override=True): the root's options replace the nested classes' own: not modelled
         return modelled(case["classes"], {"data": case["root"]}, v)
 
     # ---- model vs implementation ----
@@ -1309,11 +1379,15 @@ class C18(Check):
             return f"cost: the parse {what} on a finite input of size {vsize(norm(case['value']))}"
         if not isinstance(io, dict) or "lim" not in io:
             return f"no verdict from the implementation: {io}"
-        classes, lim, unl = case["classes"], io["lim"], io.get("unl")
+        classes, lim, unl = spec_classes(case["classes"], case["root"]), io["lim"], io.get("unl")
         # -- depth limit exact --
         if "ok" in lim and not res_within(classes, lim["ok"]):
             return ("accepted a value whose data-class nesting exceeds max_depth "
                     f"(result nesting {res_depth(lim['ok'])}, limits {[limit_of(classes, k) for k in range(len(classes))]})")
+        if "ok" in lim and not res_within_inherited(classes, lim["ok"]):
+            return ("inherited-limit: accepted a value in which an instance sits deeper than the max_depth of an enclosing class "
+                    f"allows (result nesting {res_depth(lim['ok'])}, limits {[limit_of(classes, k) for k in range(len(classes))]}): "
+                    "a class' limit is not applied to nested classes that bring their own options")
         if case.get("cyc_forced") and "ok" in lim:
             return "a cyclic input was accepted"
         if case.get("cyc") and "escape" in lim:
@@ -1329,7 +1403,7 @@ class C18(Check):
                 return "max_depth changed the result of an accepted value"
         # -- second steps: assignments on instances taken from the parsed tree, re-parses of its sub-values --
         for st, ist in zip(case.get("steps") or [], io.get("steps") or []):
-            why = self.spec_step(classes, st, ist)
+            why = self.spec_step(spec_classes(case["classes"], st["cls"]), st, ist)
             if why:
                 return why
         # -- cost bounded --
@@ -1345,7 +1419,12 @@ class C18(Check):
     def cost_verdict(classes, probe, o, which):
         if o is None:
             return None
-        if decl_data_under_union(classes):
+        if has_override(classes):
+            # under override a union stage cannot tighten the preferences (`__and__` returns the overriding options):
+            # the three stages repeat per union level of the *declaration* — a constant of the declaration
+            bound = cost_bound(classes, probe) * 3 ** decl_height(classes)
+            formula = "3^height*weight*size*(depth+1)^2"
+        elif decl_data_under_union(classes):
             # region of the known finding: a generous polynomial
             bound, formula = cost_bound(classes, probe), "weight*size*(depth+1)^2"
         else:
@@ -1399,6 +1478,10 @@ class C18(Check):
     def classify(self, case, io, why):
         if why.startswith("cost:") and decl_data_under_union(case["classes"]):
             return "union-retries-exponential"
+        if why.startswith("inherited-limit:") and not has_override(case["classes"]) and mixed_limits(case["classes"]):
+            return "limit-not-inherited"
+        if why.startswith("cyclic input not rejected") and case.get("fam") == "cyc/unlimited-below-limited-root":
+            return "limit-not-inherited"
         return None
 
     def neighbours(self, case, rng):
